@@ -13,6 +13,7 @@ mod c09;
 mod c10;
 mod c08_blocks;
 mod c11;
+mod c16;
 mod corpus;
 
 use common::Opts;
@@ -43,6 +44,7 @@ fn main() {
         | "c09" => c09::run(&opts),
         | "c10" => c10::run(&opts),
         | "c11" => c11::run(&opts),
+        | "c16" => c16::run(&opts),
         | other => {
             eprintln!("unknown property {other}");
             2
